@@ -24,14 +24,37 @@ def ff_resolve(entry, name):
     return None
 
 
-def expected_path(found, hide_init):
-    """what the documentation of ``modname_to_modpath`` promises for (hide_init, hide_main=False)"""
+def expected_path(found, hide_init, hide_main=False):
+    """what the documentation of ``modname_to_modpath`` / ``normalize_modpath`` promises, written from
+    the docstrings: hide_init -> a package is reported as its directory, otherwise as its __init__.py;
+    hide_main -> a ``__main__.py`` INSIDE A PACKAGE is folded into the package directory ("we can
+    remove main, but dont add it"; "corner case where main might just be a module name not in a pkg":
+    then the file stays). The answer is always a python file or a package directory."""
     if found is None:
         return None
-    origin = found[1]
-    if hide_init and os.path.basename(origin) == '__init__.py':
-        return os.path.dirname(origin)
-    return origin
+    p = found[1]
+    if hide_init and os.path.basename(p) == '__init__.py':
+        p = os.path.dirname(p)
+    if hide_main and os.path.basename(p) == '__main__.py' and os.path.isfile(os.path.join(os.path.dirname(p), '__init__.py')):
+        p = os.path.dirname(p)
+    return p
+
+
+def is_module_path(path):
+    """a module path is a python file or a directory holding an __init__.py"""
+    return os.path.isfile(path) or (os.path.isdir(path) and os.path.isfile(os.path.join(path, '__init__.py')))
+
+
+def expected_name(name, found, hide_init, hide_main):
+    """the dotted name the round trip must give back for a name that resolves to ``found``:
+    the name itself, minus a final ``__init__`` when inits are hidden, minus a final ``__main__``
+    when mains are hidden and the file sits in a package"""
+    parts = name.split('.')
+    if hide_init and parts[-1] == '__init__' and len(parts) > 1 and found[0] == 'mod':
+        return '.'.join(parts[:-1])
+    if hide_main and parts[-1] == '__main__' and len(parts) > 1 and found[0] == 'mod':
+        return '.'.join(parts[:-1])
+    return name
 
 
 def interpreter_resolve(entries, name):
